@@ -5,8 +5,8 @@ covers both environments and both settings of `mask_no_ops`):
 (2) `done` is absorbing (a finished row is not touched by a step);
 (3) the fuel of the model's time-advance loop is never exhausted, i.e. the code's unbounded
     `while step_complete.any()` terminates and its `assert` on `available_time` never fires;
-(4) an unfinished mask-confined run has at most 2·(number of real operations) steps
-    (one per operation + at most one wait per operation).
+(4) an unfinished mask-confined run has at most 2·(number of real operations) steps; a finished one has
+    exactly one scheduling step per operation plus its waits, at most one wait per operation (`steps_eq`).
 -/
 import Rl4co.Proofs.Fjsp
 
@@ -167,12 +167,93 @@ theorem steps_le (i : Inst) (hwf : WF i) (as : List Nat) (s : State)
   have h0 : mu i (env.reset i) = 2 * nReal i := mu_reset i
   omega
 
+/-- number of scheduling (non-wait) actions of an action list -/
+def nSched (as : List Nat) : Nat := (as.filter (fun a => a != 0)).length
+
+theorem unsched_step {i : Inst} (hwf : WF i) {s : State} (h : Inv2 i s) (hd : s.done = false) {a : Nat}
+    (ha : a < nAct i) (hm : mask i s a = true) :
+    unsched i (step i s a) + (if a = 0 then 0 else 1) = unsched i s := by
+  obtain ⟨hinv, _⟩ := h
+  unfold step
+  simp only [hd, Bool.false_eq_true, if_false]
+  by_cases ha0 : a = 0
+  · subst ha0
+    simp only [if_true]
+    obtain ⟨_, m, hmM, hb⟩ := wait_busy hinv hd hm
+    obtain ⟨t', ht'⟩ := nextTime_isSome hmM hb
+    obtain ⟨_, _, _, h4⟩ := autoTransit_spec hwf (fuel i) _ (inv_transit hwf hinv ht') (cntBusy_le_fuel i _)
+    rw [unsched_congr h4]
+    have : (transit i s).sched = s.sched := by rw [transit, release_sched, advance_some ht']
+    rw [unsched_congr this]; omega
+  · simp only [ha0, if_false]
+    obtain ⟨hsel, ho⟩ := sel_of_mask hwf hinv ha0 ha hm
+    have hms : makeStep i s (a - 1) = makeStepAt s (translate i s (a - 1)).1 (s.nextOp (translate i s (a - 1)).1)
+        (translate i s (a - 1)).2.2 := by unfold makeStep; simp only [ho]
+    have hinv' : Inv i (makeStep i s (a - 1)) := by rw [hms]; exact inv_makeStepAt hwf hinv hsel
+    obtain ⟨_, _, _, h4⟩ := autoTransit_spec hwf (fuel i) _ hinv' (cntBusy_le_fuel i _)
+    rw [unsched_congr h4, hms]
+    -- `_make_step` schedules exactly one more real operation
+    obtain ⟨hns, _, _, hoN⟩ := sel_facts hwf hinv hsel
+    have hr := hinv.nextRng _ hsel.hj
+    have hreal : isReal i (s.nextOp (translate i s (a - 1)).1) = true :=
+      anyUpTo_iff.mpr ⟨_, hsel.hj, by simp [opOf, hr.1, hr.2]⟩
+    unfold unsched
+    have : (fun o => isReal i o && !(makeStepAt s (translate i s (a - 1)).1 (s.nextOp (translate i s (a - 1)).1)
+        (translate i s (a - 1)).2.2).sched o) =
+        upd (fun o => isReal i o && !s.sched o) (s.nextOp (translate i s (a - 1)).1) false := by
+      funext o
+      simp only [makeStepAt, upd_apply]
+      by_cases ho' : o = s.nextOp (translate i s (a - 1)).1 <;> simp [ho']
+    rw [this]
+    exact cnt_upd_false hoN (by simp [hreal, hns])
+
+theorem nSched_run {i : Inst} (hwf : WF i) {s s' : State} {as : List Nat} (h : RunND env i s as s')
+    (h2 : Inv2 i s) : nSched as + unsched i s' = unsched i s := by
+  induction h with
+  | nil s => simp [nSched]
+  | @cons s s' a as hnd ha hm _ ih =>
+    simp only [env] at hnd ha hm
+    have h1 := ih (inv2_step hwf h2 ha hm)
+    have h3 := unsched_step hwf h2 hnd ha hm
+    simp only [env] at h1
+    by_cases ha0 : a = 0
+    · subst ha0; simp [nSched] at h1 h3 ⊢; omega
+    · have : nSched (a :: as) = nSched as + 1 := by simp [nSched, ha0]
+      simp only [ha0, if_false] at h3
+      omega
+
+/-- (4') **exactly one step per operation plus one per wait**: in a finished run (stepped only while
+unfinished) the scheduling actions are exactly as many as the instance has operations, and the waits
+at most as many. -/
+theorem steps_eq (i : Inst) (hwf : WF i) (as : List Nat) (s : State)
+    (h : RunND env i (env.reset i) as s) (hd : s.done = true) :
+    nSched as = nReal i ∧ as.length - nSched as ≤ nReal i := by
+  have h1 := nSched_run hwf h (inv2_reset hwf)
+  have hinv := (inv2_of_reach hwf ⟨as, h.run⟩).1
+  have h0 : unsched i s = 0 := by
+    apply cnt_eq_zero.mpr
+    intro o ho
+    cases hr : isReal i o with
+    | false => simp
+    | true =>
+      obtain ⟨j, hj, hop⟩ := anyUpTo_iff.mp hr
+      simp only [opOf, Bool.and_eq_true, decide_eq_true_eq] at hop
+      simp [all_sched_of_done hinv hd j hj o hop.1 hop.2]
+  have h2 : unsched i (env.reset i) = nReal i := by
+    unfold unsched nReal
+    have : (fun o => isReal i o && !(env.reset i).sched o) = isReal i := by funext o; simp [env, reset]
+    rw [this]
+  have h3 := steps_le i hwf as s h
+  constructor
+  · omega
+  · omega
+
 /-! ### non-vacuity: a concrete well-formed instance and a complete mask-confined run on it -/
 
 /-- schedule job 0 on machine 0, job 1 on machine 1, wait, again, wait: finished after 6 steps -/
 example : admitted env exFjsp (env.reset exFjsp) [1, 4, 0, 1, 4, 0] = true ∧
     env.done exFjsp (exec env exFjsp (env.reset exFjsp) [1, 4, 0, 1, 4, 0]) = true ∧
-    [1, 4, 0, 1, 4, 0].length ≤ 2 * nReal exFjsp := by decide
+    [1, 4, 0, 1, 4, 0].length ≤ 2 * nReal exFjsp ∧ nSched [1, 4, 0, 1, 4, 0] = nReal exFjsp := by decide
 
 end Rl4co.Fjsp
 
